@@ -117,6 +117,9 @@ type Target struct {
 	TryLock  func() bool
 	Unlock   func()
 	Digest   func() string
+	// Aftermath, if set, returns well-formed requests that address what the target holds *now* (e.g. every replica
+	// the controller lists): sent after concurrent requests, so that a state they corrupted is acted upon
+	Aftermath func() []Req
 }
 
 // Outcome of one request.
@@ -408,6 +411,10 @@ func (s *Session) Convoy(a, b Req) {
 	if s.Dead {
 		return
 	}
+	s.aftermath(fmt.Sprintf("%s %s and %s %s ran back to back", a.Method, routeOf(a.URL), b.Method, routeOf(b.URL)))
+	if s.Dead {
+		return
+	}
 	lv := do(s.T, Req{Method: "GET", URL: s.T.Liveness}, 20*time.Second)
 	if lv.Hung || lv.Panic != "" || lv.Status == 0 {
 		s.fail("wedged-after:"+s.T.Name+":convoy", fmt.Sprintf("%s: after %s %s and %s %s ran back to back the liveness request hangs=%v status=%d", s.T.Name, a.Method, routeOf(a.URL), b.Method, routeOf(b.URL), lv.Hung, lv.Status), b, lv)
@@ -421,4 +428,28 @@ func (s *Session) Convoy(a, b Req) {
 		time.Sleep(time.Millisecond)
 	}
 	s.fail("lock-left-held:"+s.T.Name+":convoy", fmt.Sprintf("%s: after %s %s and %s %s the mutex stays locked with no request in flight", s.T.Name, a.Method, routeOf(a.URL), b.Method, routeOf(b.URL)), b, Outcome{})
+}
+
+// aftermath sends the target's follow-up requests (journalled first, so that a process death is attributed).
+func (s *Session) aftermath(after string) {
+	if s.T.Aftermath == nil {
+		return
+	}
+	for _, rq := range s.T.Aftermath() {
+		if s.Journal != nil {
+			j, _ := json.Marshal(map[string]interface{}{"k": "AFTER " + rq.Method + " " + routeOf(rq.URL), "target": s.T.Name, "state": s.State, "class": rq.Class, "url": trunc(rq.URL, 300), "body": trunc(rq.Body, 300), "after": after})
+			s.Journal.Write(append(j, '\n'))
+		}
+		s.Log = append(s.Log, Req{Method: rq.Method, URL: trunc(rq.URL, 200), Body: trunc(rq.Body, 200), Class: "aftermath|" + rq.Class})
+		o := do(s.T, rq, 20*time.Second)
+		s.Res.Count("aftermath_requests", 1)
+		switch {
+		case o.Panic != "":
+			s.fail("handler-panic:"+s.T.Name+":"+rq.Method+" "+routeOf(rq.URL)+":"+panicClass(o.Panic), fmt.Sprintf("%s: handler panicked on %s %s sent after %s: %s", s.T.Name, rq.Method, routeOf(rq.URL), after, firstLines(o.Panic, 2)), rq, o)
+			return
+		case o.Hung:
+			s.fail("request-never-returned:"+s.T.Name+":"+rq.Method+" "+routeOf(rq.URL), fmt.Sprintf("%s: %s %s sent after %s did not return within 20 s", s.T.Name, rq.Method, routeOf(rq.URL), after), rq, o)
+			return
+		}
+	}
 }
